@@ -27,10 +27,10 @@ theorem nodeCount_congr {c c' : XCfg} (h : c'.evs = c.evs) : c'.nodeCount = c.no
 
 /-! ### `shiftCounter` is only touched by `shift` and `bump` -/
 
-theorem Move.shiftCounter_eq {inp c c'} (h : Move inp false c c') : c'.shiftCounter = c.shiftCounter := by
+theorem Move.shiftCounter_eq {inp e c c'} (h : Move inp (false, e) c c') : c'.shiftCounter = c.shiftCounter := by
   cases h <;> rfl
 
-theorem Moves.shiftCounter_eq {inp c c'} (h : Moves inp false c c') : c'.shiftCounter = c.shiftCounter := by
+theorem Moves.shiftCounter_eq {inp e c c'} (h : Moves inp (false, e) c c') : c'.shiftCounter = c.shiftCounter := by
   induction h with
   | refl => rfl
   | tail _ hm ih => rw [hm.shiftCounter_eq, ih]
@@ -61,7 +61,7 @@ theorem Move.recInv {inp b c c'} (h : Move inp b c c') (hc : RecInv c) : RecInv 
     · obtain ⟨o, e, rest, hr⟩ := hp h
       exact .inr ⟨_, by rw [hr]; exact List.mem_cons_self, rfl⟩
     · exact .inr h
-  | shift _ tk q sc _ =>
+  | shift _ _ tk q sc _ =>
     rcases hc with h | h
     · left; show c.recovering - 1 = 0; omega
     · exact .inr h
